@@ -544,9 +544,14 @@ class CallMixin(object):
       return
     if isinstance(base, VSuper):
       ci = self.world.classes.get(self.world.class_for(self.cur_mod.name, base.cls)) or self.world.classes.get(base.cls)
+      q = self.world.find_method(ci.bases[0], meth) if ci is not None and ci.bases else None
+      if q is None and self.mode == 'event':
+        # the parent implementation is outside the contract: an observable action labelled by its name
+        yield from self.call_opaque(None, [base.self_val] + list(args), kw, st, star, dstar, kind='call',
+                                    label='super(%s).%s' % (base.cls, meth))
+        return
       if ci is None or not ci.bases:
         raise Unsupported('super() of undeclared class %s' % base.cls)
-      q = self.world.find_method(ci.bases[0], meth)
       if q is None:
         raise Unsupported('no base method %s above %s' % (meth, base.cls))
       yield from self.call_qualified(q, [base.self_val] + list(args), kw, st, self_val=base.self_val)
@@ -573,6 +578,10 @@ class CallMixin(object):
         yield from self.list_method(base, meth, args, st)
         return
       if k == 'obj':
+        if self.mode == 'event' and self.contract is not None and meth in self.contract.callbacks:
+          # an overridable hook: whatever the subclass does is an observable action
+          yield from self.call_opaque(VBound(base, meth), args, kw, st, star, dstar)
+          return
         if self.contract is not None and ('method.' + meth) in self.contract.pure:
           yield st, self.pure_app('method.' + meth, [base] + list(args), self.contract.pure['method.' + meth], st)
           return
